@@ -57,6 +57,224 @@ host_list.append(len(host_list))
 emit(host_dict)
 "#;
 
+
+// ---- generated heap shapes ---------------------------------------------------------------------------------
+// A random object graph built by top-level statements (each one a GC safepoint): nodes of every container kind,
+// immutable ones (tuple, struct, record) carrying fresh inline mutable children, closures holding boxes; edges added
+// afterwards through paths, so that cycles run through any kind and may be reachable only through an immutable root;
+// root slots pre-declared in generated order (the collector walks module slots in order); roots dropped so that nodes
+// stay alive only through other nodes; mutation through one alias observed through the others.
+
+#[derive(Clone)]
+struct Node {
+    name: String,
+    alive: bool,
+    is_fn: bool,
+    list_paths: Vec<String>,
+    dict_paths: Vec<String>,
+}
+
+struct GraphGen<'a, 'c> {
+    ch: &'a mut Choices<'c>,
+    nodes: Vec<Node>,
+    out: String,
+    labels: Vec<&'static str>,
+}
+
+impl<'a, 'c> GraphGen<'a, 'c> {
+    fn atom(&mut self) -> String {
+        match self.ch.below(6) {
+            0 => format!("{}", self.ch.range(-3, 99)),
+            1 => format!("\"s{}\"", self.ch.below(9)),
+            2 => "None".to_owned(),
+            3 => format!("{}", 1i64 << self.ch.range(31, 62)),
+            4 => "\"x\" * 20".to_owned(),
+            _ => "True".to_owned(),
+        }
+    }
+    /// An element expression: atom, reference to a live node, or a fresh inline mutable child (whose path is recorded).
+    fn elem(&mut self, path: &str, lp: &mut Vec<String>, dp: &mut Vec<String>) -> String {
+        let live: Vec<String> = self.nodes.iter().filter(|n| n.alive).map(|n| n.name.clone()).collect();
+        match self.ch.weighted(&[3, if live.is_empty() { 0 } else { 4 }, 2, 1]) {
+            0 => self.atom(),
+            1 => live[self.ch.idx(live.len())].clone(),
+            2 => {
+                lp.push(path.to_owned());
+                "[]".to_owned()
+            }
+            _ => {
+                dp.push(path.to_owned());
+                "{}".to_owned()
+            }
+        }
+    }
+    fn new_node(&mut self, idx: usize) {
+        let name = format!("g{idx}");
+        let mut lp = Vec::new();
+        let mut dp = Vec::new();
+        let mut is_fn = false;
+        let n = 1 + self.ch.idx(3);
+        let expr = match self.ch.below(7) {
+            0 => {
+                let mut parts = Vec::new();
+                for i in 0..n {
+                    parts.push(self.elem(&format!("{name}[{i}]"), &mut lp, &mut dp));
+                }
+                lp.push(name.clone());
+                format!("[{}]", parts.join(", "))
+            }
+            1 => {
+                let mut parts = Vec::new();
+                for i in 0..n {
+                    let e = self.elem(&format!("{name}[\"k{i}\"]"), &mut lp, &mut dp);
+                    parts.push(format!("\"k{i}\": {e}"));
+                }
+                dp.push(name.clone());
+                format!("{{{}}}", parts.join(", "))
+            }
+            2 | 3 => {
+                self.labels.push("graph_tuple");
+                let mut parts = Vec::new();
+                for i in 0..n {
+                    parts.push(self.elem(&format!("{name}[{i}]"), &mut lp, &mut dp));
+                }
+                format!("({},)", parts.join(", "))
+            }
+            4 => {
+                self.labels.push("graph_struct");
+                let mut parts = Vec::new();
+                for i in 0..n {
+                    let e = self.elem(&format!("{name}.f{i}"), &mut lp, &mut dp);
+                    parts.push(format!("f{i} = {e}"));
+                }
+                format!("struct({})", parts.join(", "))
+            }
+            5 => {
+                self.labels.push("graph_record");
+                let a = self.elem(&format!("{name}.a"), &mut lp, &mut dp);
+                let b = self.elem(&format!("{name}.b"), &mut lp, &mut dp);
+                format!("GRec(a = {a}, b = {b})")
+            }
+            _ => {
+                // closure over a box; the box is reachable only through the function
+                self.labels.push("graph_closure");
+                is_fn = true;
+                let mut l2 = Vec::new();
+                let mut d2 = Vec::new();
+                let e = self.elem("", &mut l2, &mut d2);
+                let e = if e == "[]" || e == "{}" { self.atom() } else { e };
+                lp.push(format!("{name}()"));
+                format!("(lambda box: lambda: box)([{e}])")
+            }
+        };
+        self.out.push_str(&format!("{name} = {expr}\n"));
+        // a pre-declared node replaces the placeholder entry
+        if let Some(n) = self.nodes.iter_mut().find(|n| n.name == name) {
+            n.alive = true;
+            n.is_fn = is_fn;
+            n.list_paths = lp;
+            n.dict_paths = dp;
+        } else {
+            self.nodes.push(Node { name, alive: true, is_fn, list_paths: lp, dict_paths: dp });
+        }
+    }
+    fn target(&mut self) -> Option<String> {
+        let live: Vec<&Node> = self.nodes.iter().filter(|n| n.alive).collect();
+        if live.is_empty() {
+            return None;
+        }
+        let n = live[self.ch.idx(live.len())];
+        // the node itself, or one of its inline children
+        let mut opts: Vec<String> = vec![n.name.clone()];
+        opts.extend(n.list_paths.iter().cloned());
+        opts.extend(n.dict_paths.iter().cloned());
+        Some(opts[self.ch.idx(opts.len())].clone())
+    }
+    fn edge(&mut self) {
+        let lists: Vec<String> = self.nodes.iter().filter(|n| n.alive).flat_map(|n| n.list_paths.iter().cloned()).collect();
+        let dicts: Vec<String> = self.nodes.iter().filter(|n| n.alive).flat_map(|n| n.dict_paths.iter().cloned()).collect();
+        let Some(q) = self.target() else { return };
+        let use_dict = !dicts.is_empty() && (lists.is_empty() || self.ch.chance(1, 3));
+        if use_dict {
+            let p = dicts[self.ch.idx(dicts.len())].clone();
+            let k = self.ch.below(4);
+            self.out.push_str(&format!("{p}[\"e{k}\"] = {q}\n"));
+        } else if !lists.is_empty() {
+            let p = lists[self.ch.idx(lists.len())].clone();
+            self.out.push_str(&format!("{p}.append({q})\n"));
+        }
+    }
+    fn emit_all(&mut self) {
+        for n in self.nodes.iter().filter(|n| n.alive) {
+            if n.is_fn {
+                self.out.push_str(&format!("emit({}())\n", n.name));
+            } else {
+                self.out.push_str(&format!("emit({})\n", n.name));
+            }
+        }
+    }
+    fn build(&mut self) {
+        let n = 2 + self.ch.idx(7);
+        self.out.push_str("GRec = record(a = typing.Any, b = typing.Any)\n");
+        // pre-declare some roots in generated order: fixes the module slot order independently of creation order
+        let npre = self.ch.idx(n + 1);
+        let mut order: Vec<usize> = (0..n).collect();
+        for i in (1..order.len()).rev() {
+            let j = self.ch.idx(i + 1);
+            order.swap(i, j);
+        }
+        for &i in order.iter().take(npre) {
+            self.out.push_str(&format!("g{i} = None\n"));
+            self.nodes.push(Node { name: format!("g{i}"), alive: false, is_fn: false, list_paths: Vec::new(), dict_paths: Vec::new() });
+        }
+        if npre > 0 {
+            self.labels.push("graph_predeclared");
+        }
+        for i in 0..n {
+            self.new_node(i);
+            if self.ch.chance(1, 3) {
+                self.edge();
+            }
+        }
+        let ne = 1 + self.ch.idx(2 * n);
+        for _ in 0..ne {
+            match self.ch.weighted(&[8, 2, 1]) {
+                0 => self.edge(),
+                1 => {
+                    let live: Vec<String> = self.nodes.iter().filter(|n| n.alive && !n.is_fn).map(|n| n.name.clone()).collect();
+                    if !live.is_empty() {
+                        let v = live[self.ch.idx(live.len())].clone();
+                        self.out.push_str(&format!("emit({v})\n"));
+                    }
+                }
+                _ => {
+                    // drop a root: the node stays alive only if something else points at it
+                    let live: Vec<usize> = self.nodes.iter().enumerate().filter(|(_, n)| n.alive).map(|x| x.0).collect();
+                    if live.len() > 1 {
+                        let i = live[self.ch.idx(live.len())];
+                        self.nodes[i].alive = false;
+                        self.out.push_str(&format!("{} = None\n", self.nodes[i].name));
+                        self.labels.push("graph_root_dropped");
+                    }
+                }
+            }
+        }
+        self.emit_all();
+        // mutation through one path must be visible through every alias after further collections
+        let lists: Vec<String> = self.nodes.iter().filter(|n| n.alive).flat_map(|n| n.list_paths.iter().cloned()).collect();
+        for (i, p) in lists.iter().enumerate().take(4) {
+            self.out.push_str(&format!("{p}.append(\"m{i}\")\n"));
+        }
+        self.emit_all();
+    }
+}
+
+fn gen_graph(ch: &mut Choices) -> (String, Vec<&'static str>) {
+    let mut g = GraphGen { ch, nodes: Vec::new(), out: String::new(), labels: Vec::new() };
+    g.build();
+    (g.out, g.labels)
+}
+
 /// Split a program into up to `n` chunks at top-level statement boundaries.
 fn split_chunks(plain: &str, n: usize) -> Vec<String> {
     let lines: Vec<&str> = plain.lines().collect();
@@ -177,13 +395,17 @@ impl Prop for C03 {
         let marked = g.program();
         let labels = g.labels.clone();
         let body = prog::render_plain(&marked);
-        let plain = format!("{PRELUDE}{body}{EPILOGUE}");
+        let (graph, glabels) = gen_graph(ch);
+        let plain = if ch.chance(1, 4) { format!("{PRELUDE}{graph}{EPILOGUE}") } else if ch.bool() { format!("{PRELUDE}{graph}{body}{EPILOGUE}") } else { format!("{PRELUDE}{body}{graph}{EPILOGUE}") };
         let nchunks = 1 + ch.idx(3);
         let host_between = ch.bool();
         let mask = ch.u64();
         let chunks = split_chunks(&plain, nchunks);
         let mut r = CaseResult::new(format!("[{} chunk(s), host_between={host_between}, mask={mask:#x}]\n{plain}", chunks.len()));
         for l in &labels {
+            r.label(l);
+        }
+        for l in glabels {
             r.label(l);
         }
         if chunks.len() > 1 {
